@@ -10,7 +10,8 @@ TNext ==
   /\ l <= Len(Rec)
   /\ l' = l + 1
   /\ LET e == Rec[l] IN
-     IF e.a = "reset" THEN mon' = PInit([e.sc EXCEPT !.snd = ToSet(@), !.trk = ToSet(@)]) /\ mode' = "ok" /\ bad' = bad
+     IF e.a = "reset" /\ "mode" \in DOMAIN e THEN mon' = [sc |-> Dummy] /\ mode' = "ok" /\ bad' = bad      \* (racy_add sessions: no scene)
+     ELSE IF e.a = "reset" THEN mon' = PInit([e.sc EXCEPT !.snd = ToSet(@), !.trk = ToSet(@)]) /\ mode' = "ok" /\ bad' = bad
      ELSE IF mode = "skip" \/ e.a = "end" THEN UNCHANGED <<mon, mode, bad>>
      ELSE LET r == Check(mon, e) IN
           IF r = "" THEN mon' = Upd(mon, e) /\ UNCHANGED <<mode, bad>>
